@@ -121,4 +121,20 @@ Proof.
       * cbn. eauto.
     + cbn in Hunf. destruct (IH Hunf) as (i & w' & Hw). exists (S i). cbn. rewrite Hw. destruct w'. eauto.
 Qed.
+(* concurrent = sequential: what a block observes does not depend on the interleaving.
+   (1) when the lock is free in a reachable world the global state IS the initial one, so __enter__ takes the same
+       decision and installs the same locale as in a sequential run from the initial state;
+   (2) while a thread is inside a locale block no step of another thread changes the global state. *)
+Lemma free_state_is_initial : forall init s ts, inv init (s, ts) -> locked s = false -> s = mkg false init.
+Proof. intros init [lk l] ts (_ & B & _) L. cbn in L. subst lk. destruct (B eq_refl) as (_ & E). cbn in E. subst l. reflexivity. Qed.
+Lemma enter_as_sequential : forall init s ts c, inv init (s, ts) -> locked s = false ->
+  enter avail c s = enter avail c (mkg false init).
+Proof. intros init s ts c H L. rewrite (free_state_is_initial init s ts H L). reflexivity. Qed.
+Lemma others_do_not_disturb : forall s t s' t', tstep avail s t = Some (s', t') -> locked s = true -> inside t = false -> s' = s.
+Proof.
+  intros s t s' t' H L I. destruct t as [[|[|l fb] r]|[old|] r]; cbn in H, I; try discriminate.
+  - injection H as <- <-. reflexivity.
+  - rewrite L in H. discriminate.
+  - injection H as <- <-. reflexivity.
+Qed.
 End Collation.
